@@ -595,7 +595,7 @@ class Renderer:
         return self._r(a, form)
 
     def render(self, a):
-        return join_tokens(self.tokens(a))
+        return join_tokens(self.tokens(a), wordops=self.tab.word_ops())
 
     def _decide(self, a, form):
         k = a[0]
@@ -717,13 +717,18 @@ def glue_ok(a, b):
     return False
 
 
-def join_tokens(toks, rnd=None, compact=0.0, ws=None):
+def join_tokens(toks, rnd=None, compact=0.0, ws=None, wordops=()):
     """Joins tokens with single blanks (or `ws()` strings); with `compact` probability a safe boundary
     gets no whitespace at all."""
     out = []
     for i, t in enumerate(toks):
         if i:
             a = toks[i - 1]
+            if a in wordops and t in (",", ";"):
+                # a word operator glued to `,` or `;` would be read as part of a longer word
+                out.append(ws() if ws else " ")
+                out.append(t)
+                continue
             tight = glue_ok(a, t) and (isinstance(a, FnName) or t in (")", "]", "}", ",") or a in ("(", "[", "{")) if rnd is None else (glue_ok(a, t) and rnd.random() < compact)
             if not tight:
                 out.append(ws() if ws else " ")
